@@ -337,9 +337,9 @@ def r5_identifier_provenance(repo):
     # type parameter names: the list of taken names must record exactly what caps() drew
     f = _m(repo, "gen_type_params")
     caps = [c for c in calls_in(f.node) if call_name(c) == "caps"]
-    okc = len(caps) == 1 and kwarg(caps[0], "blacklist") is not None
+    okc = len(caps) == 1 and kwarg(caps[0], "blacklist", 1) is not None
     if okc:
-        bl = src(kwarg(caps[0], "blacklist"))
+        bl = src(kwarg(caps[0], "blacklist", 1))
         apps = [c for c in calls_in(f.node) if call_name(c) == "append" and src(c.func.value) == bl]
         okc = len(apps) == 1 and isinstance(apps[0].args[0], ast.Name)
         if okc:
